@@ -835,6 +835,8 @@ def structstr_method(it, ss, name, args, kwargs, pc):
             raise Unsupported("split() without concrete separator")
         ms = -1 if len(args) < 2 else args[1]
         return SS.split(vc, ss, args[0], ms)
+    if name == "partition" and len(args) == 1 and isinstance(args[0], str):
+        return SS.partition(vc, ss, args[0])
     if name in ("startswith", "endswith"):
         a = args[0]
         fn = SS.startswith if name == "startswith" else SS.endswith
